@@ -82,7 +82,8 @@ def c_expr_to_R(expr, allowed, rel):
     expressions), so that no integer division is hidden."""
     out = []
     pos = 0
-    expr = expr.strip()
+    # a conversion `(double)` is the identity in the real-number reading of the expression
+    expr = re.sub(r"\(\s*double\s*\)", "", expr.strip())
     while pos < len(expr):
         m = _TOK.match(expr, pos)
         if not m:
